@@ -348,7 +348,8 @@ def step_text(c):
     if k == 'track': return 'xvc file track ' + ' '.join(list(c[2] if len(c) > 2 else []) + list(c[1]))
     if k == 'rm-recheck': return (f'rm -rf {os.path.dirname(c[1])}; xvc file recheck (everything tracked below)' if c[2] else f'rm {c[1]}; xvc file recheck {c[1]}')
     if k in ('recheck', 'carry-in'): return f'xvc file {k} ' + ('--force ' if c[2] else '') + ' '.join(c[1])
-    if k in ('copy', 'move'): return f'xvc file {k} {c[1]} {c[2]}'
+    if k in ('copy', 'move'): return f'xvc file {k} ' + ' '.join(list(c[3]) if len(c) > 3 else []) + (' ' if len(c) > 3 and c[3] else '') + f'{c[1]} {c[2]}'
+    if k == 'send-rm-bring': return f'xvc file send -s s (everything tracked below {os.path.dirname(c[1])}/); rm -rf {os.path.dirname(c[1])} and the cache; xvc file bring -s s (the same)'
     if k == 'u-rm-gitignore': return f'user: rm {c[1]}/{GI}'
     if k == 'u-regen-dir': return f'user: rm -rf {c[1]}; regenerate the files below {c[1]}/ with identical content (no {GI})'
     if k == 'u-del-line': return f'user: delete the line {c[2]!r} from {c[1] or "."}/{GI}'
@@ -677,6 +678,7 @@ def scenario(chk, pr, xvc, idx, rng, forced=None):
                 absent = {f for f in targets if not os.path.lexists(sb.path(f))}
                 mat = sorted(f for f in targets if (rec.get(f), ext_of(f)) in cache and (force or f in absent))
                 made = sorted({os.path.dirname(f) for f in mat if os.path.dirname(f) and not os.path.isdir(sb.path(os.path.dirname(f)))})
+                if made: chk.count('newdir:recheck-into-absent-directory')
                 rc, out, err = X('file', 'recheck', *(['--force'] if force else []), *targets)
                 # recheck_from_cache re-creates the parents: the model works on the tree that has them; with several missing
                 # parents the IgnoreDir operations depend on the order of the worker threads
@@ -687,6 +689,37 @@ def scenario(chk, pr, xvc, idx, rng, forced=None):
                 named = {f for f in targets if (force or f in absent) and os.path.lexists(sb.path(f))}
                 idle = [f for f in targets if f not in named and f not in ign_before and os.path.lexists(sb.path(f))]
                 if idle: chk.count('observation:recheck-of-present-file-is-a-no-op(not re-ignored, not demanded)')
+            elif c[0] == 'send-rm-bring':
+                # the files below a directory go to a local storage, the user loses the directory (with its .gitignore) and the
+                # cache; `bring` fetches and then rechecks (cmd_recheck): materialisation into a directory that does not exist
+                d = os.path.dirname(c[1])
+                targets = sorted(t for t in rec if t.startswith(d + '/') and (rec.get(t), ext_of(t)) in cache)
+                chk.count('command:bring')
+                if not st.get('storage'):
+                    X('storage', 'new', 'local', '--name', 's', '--path', os.path.join(sb.base, 'storage')); st['storage'] = True
+                rc, out, err = X('file', 'send', '--storage', 's', *targets)
+                if rc == 0 and targets:
+                    for dp, dn, fn in os.walk(sb.path(d)):
+                        os.chmod(dp, 0o755)
+                    shutil.rmtree(sb.path(d), ignore_errors=True)
+                    for cd in set(CACHE_PREFIX.values()):
+                        if os.path.isdir(sb.path('.xvc/' + cd)):
+                            for dp, dn, fn in os.walk(sb.path('.xvc/' + cd)):
+                                os.chmod(dp, 0o755)
+                            shutil.rmtree(sb.path('.xvc/' + cd), ignore_errors=True)
+                    before = {k2: v for k2, v in read_gitignores(sb).items()}
+                    ents = disk_tree(sb)
+                    real0 = git_check_ignore(sb.root, sb.env, store)
+                    ign_before = {p for p in store if p in real0 and real0[p][0]}
+                    kept = {x for x in cache if any(rec.get(t) == x[0] and ext_of(t) == x[1] for t in targets)}
+                    cache.clear(); cache.update(kept)
+                    made = sorted({os.path.dirname(f) for f in targets if not os.path.isdir(sb.path(os.path.dirname(f)))})
+                    if made: chk.count('newdir:bring-into-absent-directory')
+                    rc, out, err = X('file', 'bring', '--storage', 's', *targets)
+                    if len(made) <= 1:
+                        exp = model_after(pr, 'ghandler', with_parents(ents, targets), made, targets)
+                    for f in targets: content[f] = rec[f]
+                    named = {f for f in targets if os.path.lexists(sb.path(f))}
             elif c[0] == 'carry-in':
                 targets, force = list(c[1]), bool(c[2])
                 chk.count('command:carry-in' + (':force' if force else ''))
@@ -702,10 +735,12 @@ def scenario(chk, pr, xvc, idx, rng, forced=None):
                 if idle: chk.count('observation:carry-in-of-unchanged-file-is-a-no-op(not re-ignored, not demanded)')
             elif c[0] in ('copy', 'move'):
                 src, dst = c[1], c[2]
-                chk.count('command:' + c[0])
+                mopts = list(c[3]) if len(c) > 3 else []
+                chk.count('command:' + c[0] + (':' + '='.join(mopts) if mopts else ''))
                 parent = os.path.dirname(dst)
                 missing = bool(parent) and not os.path.isdir(sb.path(parent))
-                rc, out, err = X('file', c[0], src, dst)
+                if missing: chk.count(f'newdir:{c[0]}-into-absent-directory')
+                rc, out, err = X('file', c[0], *mopts, src, dst)
                 if rc == 0:
                     files.append(dst)
                     content[dst] = cur.get(src, rec.get(src, ''))
@@ -716,7 +751,7 @@ def scenario(chk, pr, xvc, idx, rng, forced=None):
                     if missing:
                         # recheck_from_cache created the parent: the model works on the tree that has it
                         ents = ents + [('D', p) for p in ([parent] + ([os.path.dirname(parent)] if '/' in parent else [])) if ('D', p) not in ents]
-                    if c[0] == 'move':      # copy -> copy: renamed in the workspace, then update_file_gitignores (C16-move.patch)
+                    if c[0] == 'move' and not mopts:      # copy -> copy: renamed in the workspace, then update_file_gitignores (C16-move.patch)
                         exp = model_after(pr, 'gmove', ents, [], [dst])
                     else:
                         exp = model_after(pr, 'ghandler', ents, [parent] if missing else [], [dst])
@@ -907,6 +942,59 @@ CORPUS = [
                   ('u-del-line', 'a', '/y.bin'), ('recheck', ['a/y.bin'], True), ('u-del-line', 'a', '/y.bin'), ('carry-in', ['a/y.bin'], True)]},
 ]
 # seeded defect C16-2 (read - truncate - rewrite instead of O_APPEND): a LATER command fails at the .gitignore update
+# seeded defect C16-4 (one ignore operation per materialised file: IgnoreDir for a created parent INSTEAD of IgnoreFile): a tracked
+# file is materialised into a directory that does not exist, and the ignore handler drops the IgnoreDir because xvc's matcher does
+# not answer NoMatch for the directory (user whitelist naming the directory / anchored line of a same-named tracked file)
+NEWDIR_CORPUS = [
+    {'files': ['a.bin', 'm.bin'], 'gitignores': {'': '*.tmp\n!/datasets\n'},
+     'commands': [('track', ['a.bin', 'm.bin'], []), ('copy', 'a.bin', 'datasets/train.bin'), ('move', 'm.bin', 'datasets2/moved.bin', ['--recheck-method', 'symlink'])]},
+    {'files': ['a.bin', 'latest'], 'gitignores': {}, 'commands': [('track', ['a.bin', 'latest'], []), ('copy', 'a.bin', 'runs/latest/weights.bin')]},
+    {'files': ['models/w.bin'], 'gitignores': {'': '!models\n'}, 'commands': [('track', ['models/w.bin'], []), ('rm-recheck', 'models/w.bin', True)]},
+]
+NEWDIR_NAMES = ['datasets', 'models', 'latest', 'ckpt', 'out2']
+# `!N/` (directory-only whitelist) is left out: xvc's matcher answers Whitelist for every FILE below N and refuses to write its line,
+# on the unchanged code as well - that is K6a proper (its text names `!out/`)
+NEWDIR_PATTERNS = ['none', '!/N', '!N', '*.x+!N', 'parent:!N', 'parent:!/N']
+
+
+def gen_newdir_spec(rng, chk, k):
+    """materialisation INTO A DIRECTORY THAT IS NOT THERE (copy, move, recheck after rm -rf, bring) x user patterns that name the
+    directory x a tracked FILE with the directory's name at an ancestor level.  Destination names differ from the source names
+    (a same-named file elsewhere is K12 proper); a whitelist that names the directory also names a same-named FILE (K6a proper):
+    that combination is left out."""
+    N = rng.choice(NEWDIR_NAMES)
+    samefile = rng.random() < 0.35
+    nested = samefile or rng.random() < 0.35
+    top = rng.choice(['runs', 'exp'])
+    D = top + '/' + N if nested else N
+    pats = [p for p in NEWDIR_PATTERNS if (nested or not p.startswith('parent:')) and not (samefile and p in ('!/N', '!N', '*.x+!N', 'parent:!/N'))]
+    pat = rng.choice(pats)
+    cmd = rng.choice(['copy', 'copy', 'move', 'move-symlink', 'recheck', 'recheck', 'bring'])
+    present = cmd in ('copy', 'move', 'move-symlink') and rng.random() < 0.25
+    files = ['a.bin', 'm.bin']
+    first = ['a.bin', 'm.bin']
+    if samefile: files.append(N); first.append(N)
+    if cmd in ('recheck', 'bring') or rng.random() < 0.2:
+        files.append(D + '/w.dat'); first.append(D + '/w.dat')
+        if cmd not in ('recheck', 'bring'): present = True
+    elif present:
+        files.append(D + '/keep.txt')                      # an untracked file of the user keeps the directory there
+    gis = {}
+    text = {'none': '', '!/N': f'!/{N}\n', '!N': f'!{N}\n', '*.x+!N': f'*.x\n!{N}\n', 'parent:!N': f'!{N}\n', 'parent:!/N': f'!/{N}\n'}[pat]
+    if text:
+        gis[top if pat.startswith('parent:') else ''] = text
+    cmds = [('track', first, [])]
+    if cmd == 'copy': cmds.append(('copy', 'a.bin', D + '/train.bin'))
+    elif cmd == 'move': cmds.append(('move', 'm.bin', D + '/moved.bin'))
+    elif cmd == 'move-symlink': cmds.append(('move', 'm.bin', D + '/moved.bin', ['--recheck-method', 'symlink']))
+    elif cmd == 'recheck': cmds.append(('rm-recheck', D + '/w.dat', True))
+    else: cmds.append(('send-rm-bring', D + '/w.dat'))
+    if rng.random() < 0.4:
+        cmds.append(('copy', 'a.bin', D + '/second.bin'))    # once more, now the directory is there
+    chk.count(f'newdir-scenario:{cmd}:{"present" if present else "absent"}:{pat}:{"same-named-file" if samefile else "nested" if nested else "top"}')
+    return {'files': files, 'gitignores': gis, 'commands': cmds}
+
+
 FAULT_CORPUS = [
     # the demo: 13 KB of user patterns in the root .gitignore, first.bin tracked, then `track second.bin` under ulimit -f 8
     {'files': ['first.bin', 'second.bin'], 'gitignores': {'': big_user_lines(13300)},
@@ -934,7 +1022,7 @@ def run(chk: Check):
     except (RuntimeError, OSError) as ex:
         chk.proof['broken'].append({'stage': 'translator', 'errors': [f'lib/c16_extract.py: {ex}'], 'package': 'XvcIgnore', 'theorems': ['C16_gitignore_opened_append_only']})
     model = chk.lean('XvcIgnore', 'XvcIgnore.Props.C16', exe='ignoremodel',
-                     extra_modules=['XvcIgnore.Glob', 'XvcIgnore.Pattern', 'XvcIgnore.Walk', 'XvcIgnore.GitIgnore', 'XvcIgnore.Lemmas', 'XvcIgnore.GitLemmas', 'XvcIgnore.GitMono', 'XvcIgnore.GitDir', 'XvcIgnore.WritePrim', 'XvcIgnore.Gen.GitignoreWrites'])
+                     extra_modules=['XvcIgnore.Glob', 'XvcIgnore.Pattern', 'XvcIgnore.Walk', 'XvcIgnore.GitIgnore', 'XvcIgnore.Lemmas', 'XvcIgnore.GitLemmas', 'XvcIgnore.GitMono', 'XvcIgnore.GitDir', 'XvcIgnore.WritePrim', 'XvcIgnore.Gen.GitignoreWrites', 'XvcIgnore.IgnoreOps', 'XvcIgnore.Gen.IgnoreSends'])
     impl, _ = c09.build_harness(chk)
     xvc = chk.build_xvc()
     if not os.path.exists(model):
@@ -952,6 +1040,7 @@ def run(chk: Check):
     chk.trusted_base += [
         'translator lib/ignore_extract.py (GITIGNORE_INITIAL_CONTENT, COMMON_IGNORE_PATTERNS), cross-checked against the compiled constants (stream `const`)',
         'translator lib/c16_extract.py (variants of HashAlgorithm with cache directory and configuration value: Gen/HashAlgorithms.lean, compared with the directories the binary creates under .xvc/)',
+        'translator lib/c16_extract.py (the `ignore_writer.send(…)` sites of recheck_from_cache with their enclosing conditions: Gen/IgnoreSends.lean; a send whose argument is not a literal IgnoreOperation constructor counts as sending nothing)',
         'translator lib/c16_extract.py (how file/src/common/gitignore.rs and xvc init open the ignore files: Gen/GitignoreWrites.lean), cross-checked against the open(2) flags strace observes in one traced session per run and against the fault stream',
         'harness harness/src/bin/walker_harness.rs (`gcheckignore` = build_ignore_patterns(.gitignore)+check, as build_gitignore does), lib/c16.py (generators, canonicalisation of dates and of the HashMap order inside one appended block, oracle), lib/xvcbin.py',
         'modelled, not verified: git itself (dir.c/wildmatch are modelled by gitIgnored over globMatch and compared with the real `git check-ignore --no-index` on every run; `git add -A -n` is the oracle), chrono date text, the POSIX semantics of O_APPEND (WritePrim.lean `WriteKind.after`), HashMap iteration order (irrelevant: one file per group)',
@@ -996,27 +1085,34 @@ def run(chk: Check):
     specs = [dict(s) for s in CORPUS] + [dict(WHITELIST_THEN_REMOVED)] + [None] * n_sc
     known = [f['match'] for f in chk.known_findings if f.get('status') == 'open' and f.get('match')]
     is_known = lambda sig: any(all(sig.get(k) == v for k, v in m.items()) for m in known)
+    def minimise(fails, log, new_fails, tag):
+        """drop steps of a failing history while a failure with the same (not known) signature remains"""
+        if not any(not is_known(sg) for _, sg in new_fails) or len(log) <= 2 or not all('step' in l for l in log[1:]):
+            return fails, log
+        kind = next(sg for _, sg in new_fails if not is_known(sg))
+        steps = [l['step'] for l in log[1:]]
+        base = {'files': log[0]['files'], 'gitignores': log[0]['gitignores'], 'algorithm': log[0].get('algorithm')}
+        nshr = [0]
+        def still(cand):
+            nshr[0] += 1
+            f2, _, _ = scenario(chk, pr, xvc, f'shr{tag}_{nshr[0]}', rng, forced=dict(base, commands=cand))
+            return any(sg == kind for _, sg in f2)
+        small = shrink(steps, still, max_steps=14)
+        if len(small) < len(steps):
+            f2, t2, l2 = scenario(chk, pr, xvc, f'shr{tag}_final', rng, forced=dict(base, commands=small))
+            if any(sg == kind for _, sg in f2):
+                chk.count('shrunk-history')
+                return f2, l2
+        return fails, log
+
     for i, spec in enumerate(specs):
         fails, tie, log = scenario(chk, pr, xvc, i, rng, forced=spec)
         bst['cases'] += 1; chk.evaluations += 1
         bst['commands'] += sum(1 for l in log if 'cmd' in l); bst['user_steps'] += sum(1 for l in log if 'user' in l)
         if len(log) > 1: chk.nontrivial.add(hashlib.sha1(repr(log).encode()).hexdigest())
         new_fails = [(m, sg) for m, sg in fails if tuple(sorted(sg.items())) not in seen_sig]
-        if spec is None and any(not is_known(sg) for _, sg in new_fails) and len(log) > 2:
-            # minimise the history: drop steps while a failure with the same signature remains
-            kind = next(sg for _, sg in new_fails if not is_known(sg))
-            steps = [l['step'] for l in log[1:]]
-            nshr = [0]
-            def still(cand):
-                nshr[0] += 1
-                f2, _, _ = scenario(chk, pr, xvc, f'shr{i}_{nshr[0]}', rng, forced={'files': log[0]['files'], 'gitignores': log[0]['gitignores'], 'algorithm': log[0].get('algorithm'), 'commands': cand})
-                return any(sg == kind for _, sg in f2)
-            small = shrink(steps, still, max_steps=14)
-            if len(small) < len(steps):
-                f2, t2, l2 = scenario(chk, pr, xvc, f'shr{i}_final', rng, forced={'files': log[0]['files'], 'gitignores': log[0]['gitignores'], 'algorithm': log[0].get('algorithm'), 'commands': small})
-                if any(sg == kind for _, sg in f2):
-                    fails, log = f2, l2
-                    chk.count('shrunk-history')
+        if spec is None:
+            fails, log = minimise(fails, log, new_fails, f'b{i}')
         for msg, sig in fails:
             key = tuple(sorted(sig.items()))
             if key in seen_sig: continue
@@ -1030,6 +1126,30 @@ def run(chk: Check):
         if len(chk.samples) < 6 and len(log) >= 3 and i % 6 == 0:
             chk.samples.append({'stream': 'binary', 'history': log, 'oracle': [m for m, _ in fails] or 'every obliged tracked path ignored by git, every .gitignore append-only'})
     chk.extra['phase_s']['binary'] = round(time.time() - t_phase, 1); t_phase = time.time()
+
+    # ---- materialisation into directories that are not there (recheck_from_cache: IgnoreDir for the created parent AND IgnoreFile)
+    n_nd = 10 if quick else 80
+    nst = chk.tie['streams'].setdefault('new-directories', {'cases': 0, 'commands': 0, 'disagreements': 0, 'oracle_failures': 0})
+    nspecs = [dict(s) for s in NEWDIR_CORPUS] + [gen_newdir_spec(rng, chk, j) for j in range(n_nd)]
+    for j, spec in enumerate(nspecs):
+        fails, tie, log = scenario(chk, pr, xvc, 7000 + j, rng, forced=spec)
+        nst['cases'] += 1; chk.evaluations += 1
+        nst['commands'] += sum(1 for l in log if 'cmd' in l)
+        chk.nontrivial.add(hashlib.sha1(repr(log).encode()).hexdigest())
+        fails, log = minimise(fails, log, [(m, sg) for m, sg in fails if tuple(sorted(sg.items())) not in seen_sig], f'n{j}')
+        for msg, sig in fails:
+            key = tuple(sorted(sig.items()))
+            if key in seen_sig: continue
+            seen_sig.add(key)
+            nst['oracle_failures'] += 1
+            chk.oracle_failure(msg, {'history': log, 'level': 'binary', 'stream': 'new-directories'}, {'all': [m for m, _ in fails]}, signature=sig)
+        if tie:
+            nst['disagreements'] += 1
+            if nst['disagreements'] == 1:
+                chk.disagreement('new-directories', log, tie[0][1], tie[0][2], tie[0][0])
+        if j == 0 and len(chk.samples) < 8:
+            chk.samples.append({'stream': 'new-directories', 'history': log, 'oracle': [m for m, _ in fails] or 'every obliged tracked path ignored by git, every .gitignore append-only'})
+    chk.extra['phase_s']['new-directories'] = round(time.time() - t_phase, 1); t_phase = time.time()
 
     # ---- the append primitive: open flags observed in one traced session, and faults at the .gitignore update
     ost = chk.tie['streams'].setdefault('open-flags', {'cases': 0, 'disagreements': 0})
@@ -1090,6 +1210,9 @@ def run(chk: Check):
         'real prior state) vs the real ones; failing generated histories are shrunk; every history runs with a cache.algorithm (blake3 default 40 %, else blake3/blake2/sha2/sha3 set in .xvc/config.toml, by -c or by '
         'XVC_cache.algorithm) and after every command nothing below .xvc/ other than store/, ec/, config.toml may be in the Git index (xvc auto-commits), be proposed by `git add -A -n` or, at the end, be in any commit '
         '(`git log --all --name-only`); the cache directory that appears is compared with the table regenerated from hashalgorithm.rs; '
+        f'{len(nspecs)} new-directory histories (the three scenarios of seeded defect C16-4 first): a tracked file is materialised by copy / move [--recheck-method symlink] / rm -rf dir + recheck / '
+        'send + rm -rf dir and cache + bring into a directory that does not exist (or does, as control), top level or nested, with user patterns none / `!/N` / `!N` / `*.x`+`!N` in the root or `!N` / `!/N` in the parent, '
+        'and optionally a tracked FILE called N at the root (its `/N` line is read by xvc at any depth): same oracle and byte tie (`!N/` is K6a proper and left out); '
         f'{len(fspecs)} fault histories: a LATER command (track file/glob/dir, copy, move, recheck, carry-in) runs under `trap "" XFSZ; ulimit -f 4|8|16` '
         'with a root or sub-directory .gitignore that the user\'s own lines made larger than the limit (or so large that the appended block crosses it), or is killed by strace at its first write(2) to that '
         '.gitignore; oracle: every byte that was in every .gitignore is still there as a prefix, every tracked path git ignored before is still ignored and not staged (the targets of the failed command are '
